@@ -67,7 +67,7 @@ def features(trace: dict, line: int) -> dict:
          "arg_maxexp": [max([e for row in a.get("rows", []) for e in row] or [0]) for a in args],
          "opts": ev.get("opts", {})}
     for k, v in ev.items():
-        if k in ("act", "out", "args", "res", "digests", "targets", "opts", "ms", "kept", "prop"):
+        if k in ("act", "out", "args", "res", "digests", "targets", "after", "opts", "ms", "kept", "prop"):
             continue
         f[k] = v
     return f
